@@ -5,9 +5,18 @@ caller's abstract state; its internal paths are merged by *outcome* (events, ter
 delta) and the caller forks only over the distinct outcomes. This replaces the product of the
 callee-internal decisions by their sum.
 """
-from .values import V, NONE, show
+from .values import V, NONE, show, vsymbols
 from .px_core import Need, Budget, Explorer, Frame, Path, _Return, _Raise, ExcInfo, Event
 from .model import AnalysisError
+
+
+def raise_taint(x):
+    """parameters the innermost controlling condition of a raise depends on"""
+    for c, _ in reversed(getattr(x, "ctrl_conds", ())):
+        if c.t and c.t[0] in ("iter", "handler"):
+            continue
+        return frozenset(s[1] for s in vsymbols(c) if s[0] == "param")
+    return frozenset()
 
 
 class Outcome:
@@ -126,7 +135,11 @@ class CompMixin:
     def call_composed(self, f, env, selfv, node, clsctx):
         cfg = self.cfg
         catch = tuple(sorted(set(self.outer_catch) | {c for fr in self.frames for cs in fr.try_catch for c in cs}))
-        key = (f.qual, tuple(sorted((k, v.t) for k, v in env.items())), selfv.t if selfv is not None else None, catch)
+        # the classes of the receiver and of the arguments are part of the calling state: `self[item]` inside a method
+        # inherited by several container classes dispatches on them
+        tys = lambda v: tuple(sorted(repr(t) for t in (v.ty or ())))
+        key = (f.qual, tuple(sorted((k, v.t, tys(v)) for k, v in env.items())),
+               (selfv.t, tys(selfv)) if selfv is not None else None, clsctx if isinstance(clsctx, str) else getattr(clsctx, "name", None), catch)
         entries = cfg.comp_cache.setdefault(key, [])
         outcomes = None
         for deps, oc in entries:
@@ -206,6 +219,7 @@ class CompMixin:
             else:
                 x = p.terminal[1]
                 term = ("raise", x.cls, x.site)
+                taint = raise_taint(x)
             delta = {}
             dsig = []
             for name in ("heap", "store", "uids", "valof", "notvals", "refined"):
@@ -228,6 +242,10 @@ class CompMixin:
                             for e in p.events if self.cfg.sig_keep(e))
             else:
                 evs = tuple(event_sig(e) for e in p.events)
+            if term[0] == "raise":
+                # refusals that depend on different arguments (or on none) are different outcomes: the representative of a
+                # merged group would otherwise decide by accident whether the caller sees an argument refusal
+                term = term + (taint,)
             sig = (term, evs, tuple(dsig), ys)
             newfacts = {a: dict.__getitem__(it.facts, a) for a in it.facts.own}
             g = groups.get(sig)
